@@ -46,7 +46,7 @@ class JSONReader(TextToModel):
 
 def parse_tree(parent: Optional[Feature], feature_node: Dict[str, Any]) -> Feature:
     """Parse the tree structure and returns the root feature."""
-    feature_name = feature_node['name']
+    feature_name = unsafename(feature_node['name'])
     abstract = feature_node['abstract']
     # Older files carry the flag as the text 'True' / 'False'
     is_abstract = abstract.lower() == 'true' if isinstance(abstract, str) else bool(abstract)
@@ -60,7 +60,7 @@ def parse_tree(parent: Optional[Feature], feature_node: Dict[str, Any]) -> Featu
 def parse_attributes(feature: Feature, feature_node: Dict[str, Any]) -> None:
     if 'attributes' in feature_node:
         for attribute in feature_node['attributes']:
-            attribute_name = attribute['name']
+            attribute_name = unsafename(attribute['name'])
             attribute_value = attribute.get('value')
             attr = Attribute(attribute_name, None, attribute_value, None)
             attr.set_parent(feature)
@@ -111,7 +111,7 @@ def parse_ast_constraint(ctc_info: Dict[str, Any]) -> Node:
     ctc_operands = ctc_info['operands']
     node = None
     if ctc_type == JSONFeatureType.FEATURE.value:
-        feature_name = ctc_info['operands'][0]
+        feature_name = unsafename(ctc_info['operands'][0])
         node = Node(feature_name)
     elif ctc_type == ASTOperation.NOT.value:
         left = parse_ast_constraint(ctc_operands[0])
@@ -144,3 +144,10 @@ def parse_ast_constraint(ctc_info: Dict[str, Any]) -> Node:
     else:
         raise ParsingException(f'Invalid constraint in JSON: {ctc_info}')
     return node
+
+
+def unsafename(name: str) -> str:
+    """Inverse of the writer's safename: drop the quotes added around names with special chars."""
+    if len(name) > 1 and name.startswith('"') and name.endswith('"'):
+        return name[1:-1]
+    return name
